@@ -262,6 +262,7 @@ class ChansSpec(SeqSpec):
 # =================================================================================== stream.Merge
 
 class SMergeSpec(SeqSpec):
+    ctx_zoo = True      # contexts come from the zoo (cause / DeadlineExceeded / plain), see vlib.apply_ctx_zoo
     component = "smerge"
     package = "stream"
     imports = "From Juniper Require Import Common.Base Conc.GoLTS Conc.Merge.\nFrom Juniper Require Conc.MergeMatcher.\nImport SM."
